@@ -1019,11 +1019,46 @@ Db* varioData(Rng& r, int ndim, int nech, int nz)
   return Db::createFromSamples(nech, ELoadBy::SAMPLE, tab, names, locs, true);
 }
 
+// directions given as grid increments (oblique and multi-cell ones included), computed on a small grid
+ASerializable* makeVarioOnGrid(Rng& r)
+{
+  int ndim = (int)r.range(1, 3);
+  VectorInt nx;
+  VectorDouble dx, x0;
+  for (int d = 0; d < ndim; d++) { nx.push_back((int)r.range(4, ndim == 3 ? 6 : 9)); dx.push_back(r.chance(0.4) ? 1. : r.uniform(0.5, 3.)); x0.push_back(r.chance(0.5) ? 0. : r.uniform(-50., 50.)); }
+  int nd0 = getDefaultSpaceDimension();
+  defineDefaultSpace(ESpaceType::RN, ndim);
+  DbGrid* g = DbGrid::create(nx, dx, x0);
+  VectorDouble z(g->getSampleNumber());
+  for (auto& v : z) v = r.chance(0.05) ? TEST : 5. + 2. * r.gauss();
+  g->addColumns(z, "grade", ELoc::Z);
+  VarioParam vp;
+  int ndir = (int)r.range(1, 3);
+  for (int id = 0; id < ndir; id++)
+  {
+    VectorInt inc(ndim, 0);
+    bool any = false;
+    for (auto& q : inc) { q = (int)r.range(-1, 2); if (q != 0) any = true; }
+    if (!any) inc[(size_t)r.below(ndim)] = 1;
+    DirParam* dp = DirParam::createFromGrid(g, (int)r.range(2, 6), inc);
+    vp.addDir(*dp);
+    delete dp;
+  }
+  Vario* v = Vario::computeFromDb(vp, g, ECalcVario::VARIOGRAM);
+  if (v == nullptr) v = Vario::create(vp);
+  delete g;
+  defineDefaultSpace(ESpaceType::RN, nd0);
+  return v;
+}
+
 ASerializable* makeVario(Rng& r)
 {
-  // (variograms whose directions are given as grid increments are not generated: computing them, and even writing
-  //  a created-but-not-computed one, overruns Vario::_setResult / Vario::getAllSw for oblique or multi-cell increments;
-  //  see SENSITIVITY.md, seeded change C08-3)
+  // one object in seven has its directions given as grid increments; decided on a copy of the generator so that the
+  // other six keep the stream (and the replay files recorded for them) unchanged
+  {
+    Rng peek = r;
+    if (peek.below(7) == 3) return makeVarioOnGrid(r);
+  }
   int ndim = (int)r.range(1, 3);
   int nech = (int)r.range(8, 40);
   int nz = (int)r.range(1, 2);
